@@ -40,9 +40,12 @@ PATH = '/svc'
 NAMES = ['member_%d' % i for i in range(6)]
 
 
+SALT = ['']
+
+
 def data(i, ep=None):
   i = i if ep is None else ep
-  return json.dumps({'serviceEndpoint': {'host': 'h%d' % i, 'port': 1000 + i}, 'additionalEndpoints': {}, 'status': 'ALIVE'}).encode()
+  return json.dumps({'serviceEndpoint': {'host': 'h%d%s' % (i, SALT[0]), 'port': 1000 + i}, 'additionalEndpoints': {}, 'status': 'ALIVE'}).encode()
 
 
 def strategy(tier):
@@ -61,6 +64,8 @@ def strategy(tier):
       (1, st.tuples(st.just('vanish'), st.integers(0, 5)).map(list)),
       # the whole path is deleted while the server set is still reading two freshly listed members
       (1, st.just(['vanish_parent'])),
+      # the same server registered under two znode names (identical data); only for the name-keyed consumer
+      (2, st.tuples(st.just('twin'), st.integers(0, 5)).map(list)),
       # the balancer is closed and a new one is opened on the same provider object
       (1, st.just(['reopen_balancer'])),
   ]
@@ -69,12 +74,15 @@ def strategy(tier):
       'initial': st.lists(st.integers(0, 5), max_size=4, unique=True),
       'latencies_ms': st.lists(st.sampled_from([0, 0, 1, 1, 3]), min_size=1, max_size=5),
       'with_balancer': st.booleans(),
+      'salt': st.sampled_from(['', '', '-x', '-y', '.z']),
       'ops': sized_list(weighted(*pairs), 0, 50 if tier == 'quick' else 140),
   })
 
 
 def execute(plan):
   flags = set()
+  # host names differ from case to case: member data cached across server sets / cases would show
+  SALT[0] = plan.get('salt', '')
   with World(seed=0) as w:
     zk = FakeKazoo([x / 1000.0 for x in plan['latencies_ms']])
     if plan['initial_parent']:
@@ -128,7 +136,7 @@ def execute(plan):
                   for n in tree_members())
 
     def ep_of(i):
-      return tuple(sorted({'host': 'h%d' % i, 'port': 1000 + i}.items()))
+      return tuple(sorted({'host': 'h%d%s' % (i, SALT[0]), 'port': 1000 + i}.items()))
 
     def tree_members():
       ch = zk.children(PATH)
@@ -173,6 +181,13 @@ def execute(plan):
         # two live znodes never advertise the same endpoint (the balancer keys its members by endpoint)
         if ep_of(op[1]) not in tree_eps().values():
           zk.z_create('%s/%s' % (PATH, NAMES[op[1]]), data(op[1]))
+      elif k == 'twin':
+        if not plan['with_balancer']:
+          live = tree_members()
+          a, b = NAMES[op[1]], NAMES[op[1]] + 'b'
+          if (a in live) != (b in live):
+            zk.z_create('%s/%s' % (PATH, b if a in live else a), data(op[1]))
+            flags.add('two_znodes_with_identical_data')
       elif k == 'replace':
         # member_i <-> member_ib: a znode name is bound to one endpoint for the whole history
         a, b = NAMES[op[1]], NAMES[op[1]] + 'b'
